@@ -141,3 +141,69 @@ package mhprimary
 //@ func readNode(data []byte) (mh multihash.Multihash, val []byte, err error)
 //@   trusted go-multihash reader (dependency): a well-formed multihash at the start of data is consumed exactly
 //@   ensures err == nil ==> mh != nil && len(mh) + len(val) == len(data) && bytes(mh) == bytes(data)[:len(mh)] && bytes(val) == bytes(data)[len(mh):]
+
+// ===========================================================================
+// Primary garbage collection: orderings and frames (C03-D5, C04, C11).
+// ghdr (ghost, per function) is the FirstFile value of the primary header file as it is on disk:
+// set by a successful readHeader and by a successful writeHeader of primary.headerPath.
+
+//@ func primaryFileName(basePath string, fileNum uint32) (name string)
+//@   trusted fmt.Sprintf("%s.%d") is an injective naming function (prelude fs.smt2)
+//@   pure
+//@   ensures name == fname(basePath, fileNum)
+
+//@ func readHeader(filePath string) (h Header, err error)
+//@   trusted reads the header file (encoding/json round trip of what writeHeader wrote)
+//@   pure
+
+//@ func writeHeader(headerPath string, header Header) (err error)
+//@   trusted the header file is rewritten in place by os.WriteFile (finding F11: not atomic; see DESIGN.md)
+//@   pure
+
+//@ footprint MHGC = heap("multihash.primaryGC.reclaimed"), heap("multihash.MultihashPrimary.rec"), heap("multihash.MultihashPrimary.nextPool"), heap("multihash.MultihashPrimary.outstandingWork"), heap("multihash.blockRecord"), heap("types.Block->int"), heap("freelist.FreeList"), heap("E:uint8"), heap("E:~/store/types.Block"), heap("G:"), heap("os.File")
+
+//@ func (gc *primaryGC) reapRecords(fileNum uint32, lowUsePercent int64) (dead bool, err error)
+//@   trusted T5 contract pending: merges/truncates free records of one non-current primary file and relocates the last records of a low-use file (see DESIGN.md 10)
+//@   modifies fp(MHGC)
+
+//@ func processFreeList(ctx context.Context, freeList *freelist.FreeList, basePath string, maxFileSize uint32) (affected map[uint32]struct{}, err error)
+//@   trusted T5 contract pending: marks the records named by the rotated freelist file as deleted (see DESIGN.md 10)
+//@   modifies fp(MHGC), ctx.$done
+//@   fresh affected
+
+// primaryGC.gc: only non-current files are reaped (the bound is the flushed file number, read
+// under flushLock); a file is unlinked only when it is dead and the first file, and only after
+// the header on disk was advanced past it (D5); a dead file that is the first file when it is
+// visited is unlinked in that visit (C11).
+//@ func (gc *primaryGC) gc(ctx context.Context, lowUsePercent int64, timeLimit time.Duration) (reclaimed int64, err error)  property C03 C04 C11
+//@   requires gc.primary != nil && gc.visited != nil
+//@   modifies fp(MHGC), mapof(gc.visited), ctx.$done
+//@   ghost var ghdr int = 0
+//@   ghost var gdead bool = false
+//@   ghost var gwasfirst bool = false
+//@   ghost var grem bool = false
+//@   ghost at after call mhprimary.readHeader#0: ghdr = ite($r1 == nil, $r0.FirstFile, ghdr)
+//@   ghost at after call mhprimary.writeHeader#0: ghdr = ite($r0 == nil, $a1.FirstFile, ghdr)
+//@   ghost at after call mhprimary.primaryGC.reapRecords#0: gdead = ($r0 && $r1 == nil)
+//@   ghost at after call mhprimary.primaryGC.reapRecords#0: gwasfirst = (fileNum == ghdr)
+//@   ghost at after call mhprimary.primaryGC.reapRecords#0: grem = false
+//@   ghost at after call os.Remove#0: grem = ($r0 == nil)
+//@   assert at before call mhprimary.readHeader#0: @header-path $a0 == gc.primary.headerPath
+//@   assert at before call mhprimary.writeHeader#0: @header-path $a0 == gc.primary.headerPath
+//@   assert at before call mhprimary.primaryGC.reapRecords#0: @C04-not-current $a1 == fileNum && fileNum != lastFileNum && lastFileNum == gc.primary.fileNum
+//@   assert at before call os.Remove#0: @D5-header-before-unlink $a0 == fname(gc.primary.basePath, fileNum) && ghdr == wrapu32(fileNum + 1) && fileNum != lastFileNum
+//@   assert at before call os.Remove#0: @C04-only-dead gdead
+//@   assert at before call mhprimary.writeHeader#0: @C11-advance-by-one $a1.FirstFile == wrapu32(fileNum + 1) && gwasfirst && gdead
+//@   assert at before call (context.Context).Err#0: @C11-oldest-dead-file-unlinked gdead && gwasfirst ==> grem
+//@   unreachable return#7: dead code - err is nil at this point (it was checked after reapRecords / writeHeader / os.Remove), so the DeadlineExceeded comparison never succeeds and a timed-out cycle returns through the generic ctx.Err() path
+//@   loop 0 invariant gc.visited != nil
+//@   loop 1 invariant ghdr == header.FirstFile && gc.primary == old(gc.primary) && gc.primary.basePath == old(gc.primary.basePath) && gc.primary.headerPath == old(gc.primary.headerPath) && gc.visited != nil && lastFileNum == gc.primary.fileNum
+
+// The collector goroutine (C17): when told to stop it cancels the running cycle and waits for
+// it to finish before it returns (and thereby before it closes gc.done, which Close waits for).
+//@ func (gc *primaryGC) run(interval, timeLimit time.Duration)  property C17
+//@   requires gc.stop != nil && gc.done != nil && !closed(gc.done)
+//@   modifies chan(gc.done), chan(gc.stop), fp(CTX)
+//@   ensures @C17-done-closed closed(gc.done)
+//@   ensures @C17-cycle-waited gcDone == nil || waited(gcDone)
+//@   loop 0 invariant gc.stop == old(gc.stop) && gc.done == old(gc.done) && !closed(gc.done) && t != nil && fresh(t.C) && (gcDone == nil || fresh(gcDone))
